@@ -599,6 +599,25 @@ pub fn check(args: &[String]) -> i32 {
 
     classify(&prop, &batch.reports, &batch.crashes, &exe, seed, &known, &mut known_status, &mut verdict);
 
+    // determinism re-check on every run of the check: the first runs again, in other worker
+    // processes at another worker count; digests (delivered bytes, results, findings, oracle
+    // and allocation counts) must be identical
+    let recheck_n = 300u64.min(runs);
+    let b_re = run_batch(&exe, &prop, seed, recheck_n, 3, watchdog, deadline);
+    let mut same = 0u64;
+    let mut differ: Vec<u64> = Vec::new();
+    for (i, b) in &b_re.briefs {
+        match batch.briefs.get(i) {
+            Some(a) if a == b => same += 1,
+            Some(_) => differ.push(*i),
+            None => {}
+        }
+    }
+    if !differ.is_empty() {
+        verdict.notes.push(format!("NONDETERMINISM: {} of {} re-executed runs have a different digest (first: run index {}); findings of this run may not replay", differ.len(), recheck_n, differ[0]));
+    }
+    let determinism = serde_json::json!({"runs_reexecuted_at_other_worker_count": recheck_n, "identical_digests": same, "different": differ.len()});
+
     // C01: a slice of the same seeds through the unoptimised binary (large stack frames)
     let mut dev_extra = serde_json::json!(null);
     let already_dead = verdict.violations.iter().any(|v| v.0.starts_with("C01-abort") || v.0.starts_with("C01-hang"));
@@ -667,6 +686,7 @@ pub fn check(args: &[String]) -> i32 {
             "runs_abandoned_by_library_panic_or_crash": agg.panics + batch.crashes.len() as u64,
             "known_findings_met": known_status.iter().map(|(k, v)| (k.clone(), serde_json::json!({"committed_replay_reproduces": v.0, "met_in_run": v.1}))).collect::<BTreeMap<_, _>>(),
             "fixed_entries": fixed,
+            "determinism_recheck": determinism,
             "c17_cross_build": c17_extra,
             "c01_unoptimised_build_slice": dev_extra,
             "components": {
